@@ -356,4 +356,28 @@ func c13R5(c *engine.Ctx) {
 		c.Check(okAll, "C13.R5", "DecomposePQ/ordered-result", r.Pos(), "the factors must be returned in ascending order: swap exactly when p > q %s", detail)
 	}
 	c.Floor("C13.R5", 1, n)
+	// R5b: the search loop is left only with a non-trivial divisor: every path to the
+	// division pq / g passes the edges g.Cmp(1) == 1 (g > 1) and g.Cmp(pq') == -1 (g < pq),
+	// where g is the divisor of that division and pq' the dividend
+	for _, div := range engine.CallsTo(fn, false, "(*math/big.Int).Div") {
+		a := div.Common().Args
+		what, g := a[1], a[2]
+		sideEdges := func(other func(ssa.Value) bool, sign int64) map[[2]*ssa.BasicBlock]bool {
+			return engine.EdgesWhere(fn, func(k engine.Cmp) bool {
+				call := isCallTo(k.X, "(*math/big.Int).Cmp")
+				v, isK := engine.ConstInt(k.Y)
+				if call == nil || !isK || k.Op != token.EQL || v != sign {
+					return false
+				}
+				return call.Common().Args[0] == g && other(call.Common().Args[1])
+			})
+		}
+		gt1 := sideEdges(func(v ssa.Value) bool { return engine.Describe(v) == "math/big.NewInt(1)" }, 1)
+		ltPQ := sideEdges(func(v ssa.Value) bool { return v == what }, -1)
+		ok1 := len(gt1) >= 1 && everyPathPasses(fn, div, gt1, nil)
+		ok2 := len(ltPQ) >= 1 && everyPathPasses(fn, div, ltPQ, nil)
+		c.Check(ok1 && ok2, "C13.R5", "DecomposePQ/divisor-non-trivial", div.Pos(), "the factor used to split pq must be known to satisfy 1 < g < pq on every path (g > 1 edge: %v, g < pq edge: %v): a round that degenerates to g = pq must be retried, not returned as (1, pq)", ok1, ok2)
+		// the dividend is a copy of the pq parameter
+		c.Check(strings.Contains(engine.Describe(what), "p:pq"), "C13.R5", "DecomposePQ/divides-pq", div.Pos(), "the dividend must be pq (is %s)", engine.Describe(what))
+	}
 }
